@@ -142,3 +142,25 @@ func (o *Once) Do(f func()) {
 		f()
 	}
 }
+
+// AtomicOp is the scheduling point and the synchronisation edge of one
+// sync/atomic operation on the variable at addr (sequentially consistent:
+// every atomic operation acquires and releases the variable's clock).
+func AtomicOp(addr any, what string) {
+	s, t := me()
+	t.op = opYield
+	s.visible(t)
+	t.op = opNone
+	if s.atomics == nil {
+		s.atomics = map[any]*VC{}
+	}
+	vc := s.atomics[addr]
+	if vc == nil {
+		vc = &VC{}
+		s.atomics[addr] = vc
+	}
+	t.vc.join(*vc)
+	*vc = t.vc.clone()
+	t.vc.tick(t.ID)
+	s.log(t, "atomic."+what, nil, "")
+}
